@@ -375,6 +375,8 @@ Definition np_promote (d1 d2 : dtype) : res dtype :=
   | (DBool | DInt _ _ | DFlt _ | DCplx _), DBytes n => w <- str_width d1 ;; Ok (DBytes (Z.max n w))
   | DStr n, (DBool | DInt _ _ | DFlt _ | DCplx _) => w <- str_width d2 ;; Ok (DStr (Z.max n w))
   | (DBool | DInt _ _ | DFlt _ | DCplx _), DStr n => w <- str_width d1 ;; Ok (DStr (Z.max n w))
+  | DDt _, DDt _ => np_result_type d1 d2
+  | DTd _, DTd _ => match np_result_type d1 d2 with Ok d => Ok d | Err _ => Ok DObj end   (* no common unit: object *)
   | (DDt _ | DTd _), _ | _, (DDt _ | DTd _) => Err "unmodelled"
   | _, _ => np_result_type d1 d2
   end.
@@ -494,3 +496,38 @@ Fixpoint fold_fits (acc : dtype) (ds : list dtype) (v : cv) : bool :=
 Definition is_other_e (e : elem) : bool := negb (is_tuple_e e) && negb (is_str_e e).
 Definition iter_object_spec (es : list elem) : bool :=
   existsb is_tuple_e es || (existsb is_str_e es && existsb is_other_e es) || (existsb is_big_e es && existsb is_inexact_e es).
+
+(* ------------------------------------------------------------------ element assignment by Boolean targets, block by block
+   (TypeBlocks._assign_from_bloc_by_unit / _assign_from_boolean_blocks_by_unit, type_blocks.py:1674-1840):
+   a block with at least one targeted cell is converted as a whole to resolve_dtype(value dtype, block dtype) *)
+Fixpoint M_bloc (blocks : list (dtype * nat)) (hits : list bool) (vd : dtype) : list dtype :=
+  match blocks with
+  | [] => []
+  | (d, w) :: rest =>
+      let h := firstn w hits in
+      let r := if existsb (fun b => b) h then resolve vd d else d in
+      repeat r w ++ M_bloc rest (skipn w hits) vd
+  end.
+
+(* specification: a column changes dtype only if one of its own cells is targeted *)
+Fixpoint S_bloc (cols : list dtype) (hits : list bool) (vd : dtype) : list dtype :=
+  match cols, hits with
+  | d :: cs, h :: hs => (if h then resolve vd d else d) :: S_bloc cs hs vd
+  | _, _ => []
+  end.
+
+Definition expand_blocks (blocks : list (dtype * nat)) : list dtype :=
+  flat_map (fun b => repeat (fst b) (snd b)) blocks.
+
+Definition total_width (blocks : list (dtype * nat)) : nat :=
+  fold_right (fun b n => (snd b + n)%nat) 0%nat blocks.
+
+(* no block mixes targeted and untargeted columns, unless the value already fits the block *)
+Fixpoint bloc_uniform (blocks : list (dtype * nat)) (hits : list bool) (vd : dtype) : bool :=
+  match blocks with
+  | [] => true
+  | (d, w) :: rest =>
+      let h := firstn w hits in
+      (forallb (fun b => b) h || negb (existsb (fun b => b) h) || dtype_eqb (resolve vd d) d) &&
+      bloc_uniform rest (skipn w hits) vd
+  end.
